@@ -570,12 +570,17 @@ def jitter_ends(draw, case, prob=0.5, lo=0.05e-3, hi=0.4e-3):
             if draw(st.floats(0, 1)) >= prob:
                 continue
             d = np.array([draw(st.floats(-1, 1)), draw(st.floats(-1, 1)), draw(st.floats(-1, 1))])
-            if ground and abs(o[e][2]) < 1e-12:
+            on_ground = ground and abs(o[e][2]) < 1e-12
+            if on_ground:
                 d[2] = 0.0
             nd = np.linalg.norm(d)
             if nd < 1e-3:
                 continue
             d = d / nd * draw(st.floats(lo, hi)) * ms
+            if on_ground and draw(st.booleans()):
+                # an end on the ground plane within the tolerance only: the residue of an arithmetic expression or of
+                # a transformation, or a rounded value
+                d[2] = draw(st.sampled_from([5.55e-17, -5.55e-17, 1e-12 * ms, 1e-6 * ms, -1e-6 * ms, 1e-4 * ms, 3e-4 * ms, -3e-4 * ms]))
             o[e] = [float(a + b) for a, b in zip(o[e], d)]
             n += 1
     return n
